@@ -416,6 +416,15 @@ def w_F36(ctx):
     return _design(ctx, d, ["trialcount", "sound"])
 
 
+def w_F37(ctx):
+    # Nest with MinimumTrials(5) over a 2 x 2 nesting: 6 trials (whole groups); adding a Pin makes the block report 5
+    a, b = _sf(0, ["a1", "a2"]), _sf(10, ["b1", "b2"])
+    d = {"factors": [a, b], "block": {"k": "nest", "cs": [{"k": "MinimumTrials", "n": 5}, {"k": "Pin", "idx": 0, "f": 10, "l": 0}], "align": None,
+         "outer": {"k": "cross", "design": [0], "crossing": [0], "rcc": True, "cs": []},
+         "inner": {"k": "cross", "design": [10], "crossing": [10], "rcc": True, "cs": []}}}
+    return _design(ctx, d, ["trialcount"])
+
+
 def w_F30(ctx):
     s3 = _sf(0, ["c1", "c2", "c3"])
     w = _sf(1, ["big", "small"], [2, 1])
